@@ -11,9 +11,10 @@
  *
  * Protocol on stdin/stdout (little endian, packed):
  *     batch   : uint32 n ; n * request          ->   n * response   (flushed once per batch; n == 0 terminates)
- *     request : u8 code_len; u8 code[15]; u64 rflags; u64 gpr[16]; u8 xmm[256]; u8 win[256]
+ *     request : u8 code_len; u8 code[15]; u64 rflags; u64 gpr[16]; u8 xmm[256]; u64 mm[8]; u8 win[256]
  *     response: u32 outcome (0 = completed, else signal number); u32 dirty (bytes of DATA changed outside the window);
- *               u64 fault_rip; u64 rflags; u64 gpr[16]; u8 xmm[256]; u8 win[256]
+ *               u64 fault_rip; u64 rflags; u64 gpr[16]; u8 xmm[256]; u64 mm[8]; u8 win[256]
+ * MM0..MM7 are loaded after the XMM registers and stored back before EMMS returns the x87 unit to the C code.
  * gpr order is the hardware encoding order: RAX RCX RDX RBX RSP RBP RSI RDI R8..R15.
  * Only CF PF AF ZF SF OF DF of the requested rflags are loaded; everything else is the host's own value.
  * On a fault the registers reported are those of the signal context (precise fault state).
@@ -49,14 +50,15 @@
 #define S_ENTRY  0x098              /* address jumped to (CODE) */
 #define S_MXCSR  0x0A0
 #define S_XMM    0x100              /* 16 * 16 */
+#define S_MM     0x200              /* 8 * 8 */
 
 struct __attribute__((packed)) request {
     uint8_t code_len; uint8_t code[15];
-    uint64_t rflags; uint64_t gpr[16]; uint8_t xmm[256]; uint8_t win[WIN_LEN];
+    uint64_t rflags; uint64_t gpr[16]; uint8_t xmm[256]; uint64_t mm[8]; uint8_t win[WIN_LEN];
 };
 struct __attribute__((packed)) response {
     uint32_t outcome; uint32_t dirty; uint64_t fault_rip;
-    uint64_t rflags; uint64_t gpr[16]; uint8_t xmm[256]; uint8_t win[WIN_LEN];
+    uint64_t rflags; uint64_t gpr[16]; uint8_t xmm[256]; uint64_t mm[8]; uint8_t win[WIN_LEN];
 };
 
 void x86host_enter(void);
@@ -77,6 +79,8 @@ __asm__(
     "  movdqu " A(0x140) ", %xmm4\n  movdqu " A(0x150) ", %xmm5\n  movdqu " A(0x160) ", %xmm6\n  movdqu " A(0x170) ", %xmm7\n"
     "  movdqu " A(0x180) ", %xmm8\n  movdqu " A(0x190) ", %xmm9\n  movdqu " A(0x1A0) ", %xmm10\n  movdqu " A(0x1B0) ", %xmm11\n"
     "  movdqu " A(0x1C0) ", %xmm12\n  movdqu " A(0x1D0) ", %xmm13\n  movdqu " A(0x1E0) ", %xmm14\n  movdqu " A(0x1F0) ", %xmm15\n"
+    "  movq " A(0x200) ", %mm0\n  movq " A(0x208) ", %mm1\n  movq " A(0x210) ", %mm2\n  movq " A(0x218) ", %mm3\n"
+    "  movq " A(0x220) ", %mm4\n  movq " A(0x228) ", %mm5\n  movq " A(0x230) ", %mm6\n  movq " A(0x238) ", %mm7\n"
     "  pushq " A(0x080) "\n"
     "  popfq\n"
     "  movq " A(0x08) ", %rcx\n  movq " A(0x10) ", %rdx\n  movq " A(0x18) ", %rbx\n"
@@ -102,6 +106,9 @@ __asm__(
     "  movdqu %xmm4, " A(0x140) "\n  movdqu %xmm5, " A(0x150) "\n  movdqu %xmm6, " A(0x160) "\n  movdqu %xmm7, " A(0x170) "\n"
     "  movdqu %xmm8, " A(0x180) "\n  movdqu %xmm9, " A(0x190) "\n  movdqu %xmm10, " A(0x1A0) "\n  movdqu %xmm11, " A(0x1B0) "\n"
     "  movdqu %xmm12, " A(0x1C0) "\n  movdqu %xmm13, " A(0x1D0) "\n  movdqu %xmm14, " A(0x1E0) "\n  movdqu %xmm15, " A(0x1F0) "\n"
+    "  movq %mm0, " A(0x200) "\n  movq %mm1, " A(0x208) "\n  movq %mm2, " A(0x210) "\n  movq %mm3, " A(0x218) "\n"
+    "  movq %mm4, " A(0x220) "\n  movq %mm5, " A(0x228) "\n  movq %mm6, " A(0x230) "\n  movq %mm7, " A(0x238) "\n"
+    "  emms\n"
     "  popq %r15\n  popq %r14\n  popq %r13\n  popq %r12\n  popq %rbp\n  popq %rbx\n"
     "  ret\n"
 );
@@ -183,6 +190,7 @@ int main(void) {
             memcpy(data + WIN_OFF, q->win, WIN_LEN);
             memcpy(st + S_GPR, q->gpr, 128);
             memcpy(st + S_XMM, q->xmm, 256);
+            memcpy(st + S_MM, q->mm, 64);
             *(uint64_t *)(st + S_FLAGS) = host_flags | (q->rflags & FLAG_MASK);
             int sig = sigsetjmp(jb, 1);
             if (sig == 0) {
@@ -194,8 +202,9 @@ int main(void) {
                 r->rflags = *(uint64_t *)(st + S_FLAGS) & FLAG_MASK;
                 memcpy(r->gpr, st + S_GPR, 128);
                 memcpy(r->xmm, st + S_XMM, 256);
+                memcpy(r->mm, st + S_MM, 64);
             } else {
-                __asm__ volatile("cld");
+                __asm__ volatile("cld\n emms");
                 r->outcome = (uint32_t)sig;
                 r->fault_rip = fault_rip;
                 r->rflags = fault_flags & FLAG_MASK;
